@@ -297,6 +297,30 @@ def _values(rec, snap, arm, key_case, changed):
                           witness_of(snap, {"after": snap["after_text"], "summary": f"{label}: '{snap['text']}' -> '{snap['after_text']}'"}))
             return
         _value_pair(rec, snap, arm, key_case, changed, snap["xbefore"], snap["xafter"], rng, tol, "expression")
+        if "evaluate-after" in CHECKS:
+            _evaluate_after(rec, snap, rng)
+
+
+def _evaluate_after(rec, snap, rng):
+    """the value of the rewritten tree as the implementation's own evaluate() computes it (the value
+    comparison above works on shadows with exact constants; a constant whose TYPE changed -- a
+    numpy integer that wraps at 64 bits in later arithmetic -- only shows when the tree itself is
+    evaluated).  Decided by the evaluation monitor's rules (C05), reported under this check."""
+    from . import evalmon as ME
+    from ..workloads import drive as D
+
+    after_root, after = snap["after_root"], snap["after"]
+    names = sorted(S.variables(after))
+    ctx = {x: rng.choice([2, 3, 5, 7, -3, 10, 12, 99991, 2 ** 31, 10 ** 12]) for x in names}
+    if S.size(after) > 60 or not D.safe_to_evaluate(after_root, ctx):
+        return
+    res = exc = None
+    try:
+        res = after_root.evaluate(ctx)
+    except Exception as e:
+        exc = e
+    rec.arm("value:rewritten-tree-evaluated")
+    ME.decide("C05", after_root, after, ctx, res, exc)
 
 
 def _value_pair(rec, snap, arm, key_case, changed, sb, sa, rng, tol, what):
